@@ -11,20 +11,20 @@ open Node Raft Raft.CC RaftProps.C02 RaftProps.C05
 variable {cfg : JointConfig} {c0 : Nat} {h : List Sys}
 
 /-- the snapshot point of a leader's log -/
-theorem LeaderLog.snap (H : Hyp2 cfg c0 h) {N t : Nat} {L : LLog} (hL : LeaderLog h N t L) :
+theorem LeaderLog.snap (H : Hyp2w cfg c0 h) {N t : Nat} {L : LLog} (hL : LeaderLog h N t L) :
     L.snapIdx = c0 := by
   obtain ⟨m, s, l, st, _, a2, a3, _, _, rfl⟩ := hL
   exact (node_ok H a2 a3).snapIdx
 
 /-- two leaders' logs that hold the same entry at `c` are equal up to `c` -/
-theorem ll_eq_below (H : Hyp2 cfg c0 h) {N N' t t' : Nat} {L L' : LLog} (h1 : LeaderLog h N t L)
+theorem ll_eq_below (H : Hyp2w cfg c0 h) {N N' t t' : Nat} {L L' : LLog} (h1 : LeaderLog h N t L)
     (h2 : LeaderLog h N' t' L') {c τ : Nat} (hh : Has L c τ) (hh' : Has L' c τ) :
     EqUpTo L L' c := by
   obtain ⟨m, s, l, st, _, a2, a3, _, _, rfl⟩ := h1
   exact eq_ll H a2 a3 h2 hh hh'
 
 /-- an acknowledgement of a node that is around carries a term the node has reached -/
-theorem ack_term_le (H : Hyp2 cfg c0 h) {n : Nat} {a : Sys} (ha : h[n]? = some a) {v : Nat}
+theorem ack_term_le (H : Hyp2w cfg c0 h) {n : Nat} {a : Sys} (ha : h[n]? = some a) {v : Nat}
     {st : NState} (hv : a.node v = some st) {x : Message} (hx : x ∈ a.net ∨ x ∈ st.raft.msgs)
     (hack : isAck x) (hfrm : x.frm = v) (hidx : x.index ≠ 0) : x.term ≤ st.raft.term := by
   obtain ⟨hq, hn⟩ := ack_inv H n a ha
@@ -32,12 +32,12 @@ theorem ack_term_le (H : Hyp2 cfg c0 h) {n : Nat} {a : Sys} (ha : h[n]? = some a
   · exact ((hn x c hack hidx).1 st (by rw [hfrm]; exact hv)).1
   · exact (hq v st hv x c hack hidx).2.1
 
-theorem a2m_step (H : Hyp3 cfg c0 h) {n : Nat} (S : SAll h c0 n) {a b : Sys}
+theorem a2m_step (H : Hyp3a cfg c0 h) {n : Nat} (S : SAll h c0 n) {a b : Sys}
     (ha : h[n]? = some a) (hb : h[n + 1]? = some b) :
     ∀ v st', b.node v = some st' → ∀ x, (x ∈ b.net ∨ x ∈ st'.raft.msgs) → isAck x → x.frm = v →
       c0 < x.index → x.term = st'.raft.term → Promise h (n + 1) x st'.raft.raftLog.abs := by
   intro v st' hvb x hx hack hfrm hidx hterm
-  have H2 := H.toHyp2
+  have H2 := H.toHyp2w
   have Sa := S n a (Nat.le_refl _) ha
   have hx0 : x.index ≠ 0 := by omega
   obtain ⟨k, stk, stk', hka, hkb, hoth, hs⟩ := stp_of H2 ha hb
